@@ -7,6 +7,7 @@ import (
 	"errors"
 	"net"
 	"sync"
+	"sync/atomic"
 	"time"
 
 	"google.golang.org/grpc"
@@ -35,6 +36,7 @@ type FakeDaemon struct {
 	hostAS   int // requests seen
 	hostHost int
 	log      []DaemonReq
+	live     *atomic.Int64
 }
 
 // DaemonReq is one DRKey request the daemon answered.
@@ -45,12 +47,43 @@ type DaemonReq struct {
 	ValTime          time.Time
 }
 
-func NewFakeDaemon(addr string, secret []byte, epoch time.Duration) (*FakeDaemon, error) {
-	l, err := net.Listen("tcp", addr)
+// countingListener counts the connections that are open at the moment.
+type countingListener struct {
+	net.Listener
+	live *atomic.Int64
+}
+
+type countedConn struct {
+	net.Conn
+	live *atomic.Int64
+	once sync.Once
+}
+
+func (l countingListener) Accept() (net.Conn, error) {
+	c, err := l.Listener.Accept()
 	if err != nil {
 		return nil, err
 	}
-	d := &FakeDaemon{Secret: secret, Epoch: epoch, L: l, srv: grpc.NewServer()}
+	l.live.Add(1)
+	return &countedConn{Conn: c, live: l.live}, nil
+}
+
+func (c *countedConn) Close() error {
+	c.once.Do(func() { c.live.Add(-1) })
+	return c.Conn.Close()
+}
+
+// LiveConns returns the number of client connections to the daemon that are open.
+func (d *FakeDaemon) LiveConns() int64 { return d.live.Load() }
+
+func NewFakeDaemon(addr string, secret []byte, epoch time.Duration) (*FakeDaemon, error) {
+	l0, err := net.Listen("tcp", addr)
+	if err != nil {
+		return nil, err
+	}
+	live := &atomic.Int64{}
+	l := countingListener{Listener: l0, live: live}
+	d := &FakeDaemon{Secret: secret, Epoch: epoch, L: l, srv: grpc.NewServer(), live: live}
 	sdpb.RegisterDaemonServiceServer(d.srv, d)
 	go func() { _ = d.srv.Serve(l) }()
 	return d, nil
